@@ -220,7 +220,6 @@ pub fn exec(tag: i64, inp: &[i64]) -> Vec<i64> {
         43 => with_nt!(inp[0], T => {
             vec![T::MIN.inner(), T::MAX.inner(), T::default().inner()]
         }),
-        #[cfg(feature = "cfg_std")]
         51 => {
             let v = inp[1];
             with_nt!(inp[0], T => {
@@ -436,14 +435,12 @@ pub fn gen_c04(tier: Tier, seed: u64, em: &mut Emitter, cfg: i64) {
         }
         em.emit_k("consts", 43, vec![t as i64]);
     }
-    if cfg == 0 {
-        gen_strings(tier, em);
-    }
+    gen_strings(tier, em);
 }
 
-pub fn gen_c05(tier: Tier, seed: u64, em: &mut Emitter) {
+pub fn gen_c05(tier: Tier, seed: u64, em: &mut Emitter, cfg: i64) {
     let mut r = Rng::new(seed ^ 0xC05);
-    gen_convs(50, 0, tier, &mut r, em);
+    gen_convs(50, cfg, tier, &mut r, em);
     gen_strings(tier, em);
     for (t, (_, _, max)) in NEWTYPES.iter().enumerate() {
         let t = t as i64;
